@@ -38,10 +38,15 @@ def one_case(ctx, job, variant, lines, k, via_json):
         held = list(e0.operation_logs())
         for attempt in (1, 2):
             r = simenv.make_engine(job, variant)
-            r.reload(list(held))
+            r.reload(held)            # the very same list object both times: the engine must not append to the caller's list
             for c in cmds[k:]:
                 r.exec(c)
             got = ec.norm_logs(list(r.operation_logs()))
+            if len(held) != k + 1:
+                finding = {"job": job, "variant": variant, "plan": lines, "cut": k, "via_json": False,
+                           "what": "executing after reload(recorded) changed the caller's list of recorded logs",
+                           "expected_length": k + 1, "observed_length": len(held)}
+                break
             if got != a or [l.hash for l in r.operation_logs()] != [l.hash for l in full]:
                 d = ec.first_log_diff(a, got)
                 finding = {"job": job, "variant": variant, "plan": lines, "cut": k, "via_json": False,
